@@ -105,3 +105,29 @@ def menu(rep: Reporter, menu_lines: list[str], n: int, mode: str = "collect", ma
             rep.violation({"kind": "replay:" + f}, {"engine": "menu", "what": f"replayed behaviour differs in {f}", "source": m["text"], "mode": mode,
                                                     "exc": m["exc"], "spec": m["spec"][f] if f in m["spec"] else None,
                                                     "impl": m["impl"][f] if f in m["impl"] else None})
+
+
+def grow(rep: Reporter, menu_lines: list[str], starts, invariants: list[str] | None = None, label: str = "grow",
+         no_free_text: bool = True) -> None:
+    """MC_Grow: every accepted document over the menu (after a fixed prefix), property invariants on the spec, replay on the code."""
+    prop = rep.prop
+    cnt, mism, res, behs = RP.grow_and_replay(menu_lines, starts, tag=f"{prop}-grow", invariants=invariants, no_free_text=no_free_text)
+    rep.add_tlc(f"MC_Grow[{label},starts={[(len(p), n) for p, n in starts]}]", res, f"{cnt} accepted documents replayed through Parser.parse/Compiler.compile; invariants {invariants}")
+    rep.traces += cnt
+    for inv in sorted(set(res.invariant_violations)):
+        rep.violation({"kind": "spec-invariant", "invariant": inv},
+                      {"engine": "grow", "what": f"specification violates {inv}", "tlc_tail": "\n".join(res.out.splitlines()[-60:])})
+    for b in behs:
+        rep.case(tuple(b["input"]), nontrivial=len(b["pickles"]) > 0)
+    if behs:
+        b = max(behs[:2000], key=lambda x: len(x["pickles"]))
+        rep.sample({"document": "".join(menu_lines[i - 1] for i in b["input"]), "pickles": len(b["pickles"]),
+                    "pickle_steps": [len(p["steps"]) for p in b["pickles"]], "pickle_tags": [len(p["tags"]) for p in b["pickles"]]})
+    for m in mism:
+        f = m["field"]
+        own = ({"C01"} if f == "exception" else {"C14", "C01"} if f == "errs" else {"C18"} if f == "ndeliv" else {"C11"} if f == "nid"
+               else ({"C01", "C14", "C02"} if len(m["spec"]["ast"]) != len(m["impl"]["ast"]) else AT.owners_ast(m["spec"]["ast"], m["impl"]["ast"])) if f == "ast"
+               else AT.owners_pickles(m["spec"]["pickles"], m["impl"]["pickles"]))
+        if prop in own or not own:
+            rep.violation({"kind": "replay:" + f}, {"engine": "grow", "what": f"replayed behaviour differs in {f}", "source": m["text"], "mode": "collect",
+                                                    "exc": m["exc"], "spec": m["spec"].get(f), "impl": m["impl"].get(f)})
